@@ -205,10 +205,10 @@ def gen_cache_case(rng, nops):
             else:
                 a_as = rng.randrange(3)
                 r = rng.random()
-                if r < 0.1:
-                    a = rng.randrange(0x10) * 0x1000 + 8 * rng.randrange(0x1ff)
-                elif r < 0.14:
-                    a = 0xfffffffffffff000 + 8 * rng.randrange(0x1ff)
+                if r < 0.2:
+                    a = rng.randrange(0x100) * 0x100 + 8 * rng.randrange(31)
+                elif r < 0.3:
+                    a = 0xfffffffffffff000 + rng.randrange(0x10) * 0x100 + 8 * rng.randrange(31)
                 else:
                     a = 0x10000 + rng.randrange(0x40) * 0x100 + 8 * rng.randrange(31)
             pool.append((a_as, a))
@@ -220,6 +220,27 @@ def gen_cache_case(rng, nops):
             ops.append("-%d" % rng.randrange(depth))
             depth -= 1
     return ops
+
+
+def page_source_in_sync(run, exe):
+    """harness/cb_drv.c's page source against Cb/CbCache.cb_page_source on probe addresses"""
+    probes = []
+    for a in [0, 8, 0xff, 0x100, 0x2f8, 0x300, 0x3ff, 0x400, 0xfff, 0x1000, 0x7fff, 0x8000, 0xffff, 0x10000,
+              0x12345, 0xb00, 0xffffffffffffff00, 0xfffffffffffffb00, 0x7ffffffff300]:
+        for s in (0, 1, 2):
+            probes.append("Y %x:%x" % (s, a))
+    cf = run.casefile("cb-probe.txt", probes)
+    m = core.run_model("cb", cf)
+    rc, out, err = core.run_impl(exe, [cf], timeout=60)
+    im = out.split("\n")[:-1]
+    if m != im:
+        d = [(p, a, b) for p, a, b in zip(probes, m, im) if a != b][:3]
+        run.violation("machinery", "the page source of harness/cb_drv.c and Cb/CbCache.cb_page_source differ "
+                      "(the two definitions must change together): %s" % d,
+                      {"engine": "cb", "ops": "Y", "model": m, "driver": im}, found_input=False,
+                      signature="cb page source sync")
+        return False
+    return True
 
 
 def judge_cache(run, exe, ccases, model, impl, crashes, base):
@@ -381,11 +402,12 @@ def check(run):
         cases = []
     nplain = len(cases)
     ccases = []
+    in_sync = page_source_in_sync(run, exe)
     if run.replay_path:
         if rp["ops"].startswith("C"):
             ccases = [rp["ops"].split()]
     else:
-        ccases = [gen_cache_case(run.rng, rng_n) for rng_n in [run.rng.randint(4, 40) for _ in range(700 if quick else 30000)]]
+        ccases = [] if not in_sync else [gen_cache_case(run.rng, rng_n) for rng_n in [run.rng.randint(4, 40) for _ in range(1500 if quick else 60000)]]
     lines = [" ".join(c) for c in cases] + [l for _, l in lcases] + [" ".join(c) for c in ccases]
     run.cov["rule"] = ("stacks of 1..5 (thorough: 6) layers over a fresh context, each layer with private data or NULL and "
                        "a random subset of the seven hooks overridden (35% override nothing, 15% everything); every "
